@@ -204,7 +204,7 @@ def dEx : Desc :=
   { insts := #[.prim .f32, .prim .u32,
       .struct { tag := 1, nparams := 0, fields := [{ name := "x", ty := 0, bare := true, mask := none, tl2bit := none, isBit := false, natArgs := [] },
                                                    { name := "y", ty := 1, bare := true, mask := none, tl2bit := none, isBit := false, natArgs := [] }] }],
-    names := #["float", "nat", "t"] }
+    tlnames := #["float", "nat", "t"] }
 
 /-- `AltForm` is inhabited non-trivially: inside the struct, member `y` given as the string "5" instead of the number 5 -/
 example : AltForm dEx 2 (.obj [(strBytes "y", .num ['5'])]) (.obj [(strBytes "y", .str (asciiBytes ['5']))]) :=
